@@ -78,6 +78,11 @@ def step (_ : Unit) (line : String) : Unit × String :=
       match parseKs m id, parsePairs rest with
       | some ks, some ps => showE (fun l => s!"{l.length}" ++ String.join (l.map fun p => " " ++ pairStr p)) (decodeRegions ks ps)
       | _, _ => bad
+    | "buckets" :: m :: id :: rest =>
+      match parseKs m id, rest.mapM parseHex with
+      | some ks, some keys =>
+        showE (fun l => s!"{l.length}" ++ String.join (l.map fun k => " " ++ Bytes.toHex k)) (decodeBucketKeys ks keys)
+      | _, _ => bad
     -- property ops: the property's own oracle evaluated on this side's functions
     | "regclip" :: m :: id :: rest =>
       match parseKs m id, parsePairs rest with
